@@ -139,4 +139,27 @@ theorem gen_sites :
     Gen.site_str_tmpChunkPrefix_found = true ∧ Gen.site_str_CompressedChunkExt_found = true ∧
     Gen.site_str_UncompressedChunkExt_found = true := by decide
 
+/-! ### `desync prune` with several index files -/
+
+/-- the keep-set `runPrune` builds: the chunk IDs of all the given indexes -/
+def cmdKeep (indexes : List (List Bytes)) (id : Bytes) : Bool := indexes.any (·.contains id)
+
+/-- a chunk that any of the given indexes references is in the keep-set, so (`prune_keeps_referenced`) the
+    store keeps it -/
+theorem cmd_prune_keeps_every_index (unc : Bool) (indexes : List (List Bytes)) (d d' : StoreDir)
+    (idx : List Bytes) (hidx : idx ∈ indexes) (id : Bytes) (hmem : id ∈ idx)
+    (hid : id.length = 32) (hin : nameFromID unc id ∈ d)
+    (h : prune unc (cmdKeep indexes) d = .ok d' ∨ prune unc (cmdKeep indexes) d = .failed d') :
+    nameFromID unc id ∈ d' := by
+  apply Desync.prune_keeps_referenced unc (cmdKeep indexes) d d' id _ hid hin h
+  simp only [cmdKeep, List.any_eq_true]
+  exact ⟨idx, hidx, by simpa using hmem⟩
+
+/-- **regenerated obligation**: `runPrune` makes one keep-set before the loop over the index files, adds the
+    ID of every chunk of every index, never resets it, and hands it to `Prune` -/
+theorem gen_cmd_prune :
+    Gen.cmdPruneShape = ["make-keep-set", "range-args", "add:ID", "Prune:keep-set"] ∧
+    Gen.site_shape_cmd_prune_found = true := by
+  decide
+
 end Desync.C16
